@@ -177,6 +177,13 @@ fn helper_cases(ctx: &mut Ctx, rng: &mut Rng) {
         let mapping = if rng.chance(1, 2) { None } else { Some(1 + rng.below(30)) };
         let line = mapping.unwrap_or(1).saturating_sub(if rng.chance(1, 10) { 1 } else { 0 }) + rng.below(nl + 2) + if mapping.is_none() && rng.chance(9, 10) { 0 } else { 0 };
         let col = if long && rng.chance(1, 2) { rng.below(5000) } else { rng.below(12) };
+        // half of the long rounds aim at the long line itself
+        let line = if long && rng.chance(1, 2) {
+            let row = text[..text.char_indices().find(|(_, c)| *c == 'é' || c.is_ascii_lowercase()).map(|(i, _)| i).unwrap_or(0)].matches('\n').count();
+            mapping.unwrap_or(1) + row
+        } else {
+            line
+        };
         let radius = *rng.pick(RADII);
         let rep = json!({"kind": "crop_source", "text": text, "line": line, "col": col, "mapping": mapping, "radius": radius.to_string()});
         match util::no_panic(|| hooks::snippet_crop_source_window(&text, line, col, mapping, radius)) {
@@ -267,7 +274,9 @@ fn width(s: &str) -> usize {
 struct Row {
     num: usize,
     text: String,
-    caret: Option<usize>, // display offset of the first '^' on the following marker line
+    text_col: usize,      // characters before the row's text in the rendered line (indentation, gutter, " | ")
+    caret: Option<usize>, // offset of the first '^' on the following marker line, measured from the column where the
+                          // numbered row's text starts (so a marker row with another gutter is seen as misplaced)
 }
 
 /// numbered source rows of one rendered window
@@ -280,7 +289,8 @@ fn parse_rows(rendered: &str) -> Vec<Vec<Row>> {
         let digits: String = t.chars().take_while(|c| c.is_ascii_digit()).collect();
         let rest = &t[digits.len()..];
         if !digits.is_empty() && (rest.starts_with(" | ") || rest == " |") && in_window {
-            cur.push(Row { num: digits.parse().unwrap_or(0), text: rest.get(3..).unwrap_or("").to_string(), caret: None });
+            let lead = l.chars().count() - t.chars().count();
+            cur.push(Row { num: digits.parse().unwrap_or(0), text: rest.get(3..).unwrap_or("").to_string(), text_col: lead + digits.len() + 3, caret: None });
         } else if t.starts_with("| ") || t == "|" {
             // a line of text inside the frame ("| This value comes indirectly from the anchor at ...") starts the
             // next window
@@ -296,7 +306,12 @@ fn parse_rows(rendered: &str) -> Vec<Vec<Row>> {
                 && let Some(last) = cur.last_mut()
                 && last.caret.is_none()
             {
-                last.caret = Some(p - 2);
+                let lead = l.chars().count() - t.chars().count();
+                let abs = lead + t[..p].chars().count();
+                last.caret = Some(abs.saturating_sub(last.text_col));
+                if abs < last.text_col {
+                    last.caret = Some(usize::MAX); // left of the text: never a valid place
+                }
             }
         } else {
             if in_window && !cur.is_empty() {
@@ -462,7 +477,10 @@ fn check_rendered(ctx: &mut Ctx, sc: &Scenario, e: &serde_saphyr::Error, radius:
             }
             for (wi, rows) in windows.iter().enumerate() {
                 let Some(&(l, col)) = expect.get(wi) else { break };
-                let cls = |c: &str| if lone_cr { format!("{c}:lone-cr-input") } else { c.to_string() };
+                // F74 (open): from a reader, an error line longer than the recent-bytes ring is shown as the fragment the
+                // ring still holds, with the column counted inside that fragment
+                let f74 = entry == "reader" && sc.family == "reader-window-starts-mid-line";
+                let cls = |c: &str| if f74 { "F74:reader-window-starts-mid-line".to_string() } else if lone_cr { format!("{c}:lone-cr-input") } else { c.to_string() };
                 if rows.len() > 5 {
                     ctx.fail(&cls("window-too-tall"), format!("[{}] {} numbered rows in one window: {rendered:?}", sc.family, rows.len()), replay.clone());
                 }
@@ -670,6 +688,19 @@ fn gen_scenarios(rng: &mut Rng, n: usize) -> Vec<(String, Target, &'static str)>
             }
             t.push_str(&format!("{}use: *anc{br}", if rng.chance(1, 2) { "é" } else { "" }));
             v.push((t, Target::MapI32, "alias-two-locations"));
+            // the same with a value that is valid where it is defined (a string) and not where it is used (an integer):
+            // the error then has two different locations and the report two windows
+            let lead = rng.below(14);
+            let mut t = String::new();
+            for i in 0..lead {
+                t.push_str(&format!("# lead {i}{br}"));
+            }
+            t.push_str(&format!("b: {}&anc {}{br}", " ".repeat(rng.below(90)), if rng.chance(1, 2) { "text" } else { "\"t\\e[0m\"" }));
+            for i in 0..gap {
+                t.push_str(&format!("# gap {i}{br}"));
+            }
+            t.push_str(&format!("a: *anc{br}"));
+            v.push((t, Target::Strict, "alias-two-locations"));
         }
         // F: scanner errors
         if round % 5 == 0 {
@@ -745,6 +776,32 @@ pub fn run(ctx: &mut Ctx) {
             }
         }
         scenario(ctx, &Scenario { text: &t, target: Target::MapI32, family: "large-reader-input" });
+    }
+    // an error early in a line that is longer than the reader's recent-bytes ring (3 KiB)
+    {
+        let items: Vec<String> = (0..1200).map(|i| if i == 300 { "*unk".to_string() } else { format!("v{i:04}") }).collect();
+        let t = format!("a: 1\nb: [{}]\nc: 3\n", items.join(", "));
+        scenario(ctx, &Scenario { text: &t, target: Target::Tree, family: "reader-window-starts-mid-line" });
+    }
+    // two-location errors whose definition site is on a line with a two- / three-digit number (F73: the marker row of
+    // the second window had a one-digit gutter)
+    for lead in [7usize, 8, 9, 97, 98, 120] {
+        let mut t = String::new();
+        for i in 0..lead {
+            t.push_str(&format!("# c{i}\n"));
+        }
+        // (valid where it is defined -- a string --, invalid where it is used -- an integer)
+        t.push_str("b: &anc text\n# between\na: *anc\n");
+        scenario(ctx, &Scenario { text: &t, target: Target::Strict, family: "alias-two-locations" });
+    }
+    // lines longer than the 4 KiB storage threshold: the stored window is cropped before it is kept; the error line
+    // keeps everything left of the error column (the renderer crops it again around the column)
+    for (pad, long_ctx) in [(4500usize, false), (70, false), (9000, false), (200, true), (5, true)] {
+        let long_line = format!("ctx: {}\n", "7".repeat(4300));
+        let t = format!("a: 1\n{}k:{}oops\n{}z: 3\n", if long_ctx { long_line.as_str() } else { "" }, " ".repeat(pad), if long_ctx { long_line.as_str() } else { "" });
+        scenario(ctx, &Scenario { text: &t, target: Target::MapI32, family: "line-beyond-storage-threshold" });
+        let t = format!("a: 1\n{}: oops\nz: 3\n", "x".repeat(pad.max(4200)));
+        scenario(ctx, &Scenario { text: &t, target: Target::MapI32, family: "line-beyond-storage-threshold" });
     }
     let n = if ctx.quick() { 60 } else { 700 };
     for (t, target, fam) in gen_scenarios(&mut rng, n) {
